@@ -8,7 +8,7 @@ namespace Cjet.Daemon.C05
 
 open Cjet Cjet.Json Cjet.Daemon
 
-theorem changeState_ok {x : Ctx} (h : Inv x.st) {p : Peer} (hp : p ∈ x.st.peers) (req : Json) :
+theorem changeState_ok {x : Ctx} (h : Inv x.st) {p : Peer} (_hp : p ∈ x.st.peers) (req : Json) :
     Ok x (changeState x p req).1 := by
   unfold changeState
   split
